@@ -1322,6 +1322,70 @@ def observe_flag_deps(mod):
     return deps
 
 
+SPELLING_CANDIDATES = [None, "", "-", "--", " ", "-.", "stdin", "0", "None"]
+
+
+def observe_stdin_spellings(mod):
+    """Which spellings of RecordReader's url argument mean "no url: take the file object / standard input and SNIFF its
+    container"?  Observed on an Avro payload (a sniffing route picks the avro adapter -- or, without fastavro, raises
+    RecordAdapterNotFound -- while the url route picks the adapter of the url's extension/scheme), with and without fileobj=.
+    -> list of spellings for which BOTH forms sniff."""
+    import sys
+    from flow.record.exceptions import RecordAdapterNotFound
+    payload = b"Obj\x01" + b"\x00" * 40
+    seen = []
+
+    class Rec:
+        def __init__(self, name):
+            self.name = name
+
+        def __getattr__(self, cls):
+            return lambda *a, **k: None
+
+    class Imp:
+        @staticmethod
+        def import_module(name):
+            seen.append(name)
+            return Rec(name)
+
+    class FakeStdin:
+        def __init__(self, data):
+            self.buffer = io.BufferedReader(io.BytesIO(data))
+
+    def route(spelling, with_fileobj):
+        del seen[:]
+        saved_imp, saved_stdin = mod.importlib, sys.stdin
+        mod.importlib = Imp
+        sys.stdin = FakeStdin(payload)
+        try:
+            kw = dict(fileobj=io.BytesIO(payload)) if with_fileobj else {}
+            try:
+                mod.RecordAdapter(spelling, out=False, **kw)
+            except RecordAdapterNotFound:
+                return "sniffed"
+            except Exception as e:  # noqa
+                return "error:" + type(e).__name__
+            return "sniffed" if (seen and seen[-1].endswith(".avro")) else "url"
+        finally:
+            mod.importlib, sys.stdin = saved_imp, saved_stdin
+
+    table = {sp: (route(sp, False), route(sp, True)) for sp in SPELLING_CANDIDATES}
+    return [sp for sp in SPELLING_CANDIDATES if table[sp] == ("sniffed", "sniffed")], table
+
+
+def stdin_spelling_tuples(mod):
+    """ast cross-check: the constant tuples RecordAdapter compares `url` with (`url in (...)` / `url not in (...)`)."""
+    node, _ = _fn_ast(mod.RecordAdapter)
+    out = []
+    for n in ast.walk(node):
+        if isinstance(n, ast.Compare) and _is_name(n.left, "url") and len(n.ops) == 1 and isinstance(n.ops[0], (ast.In, ast.NotIn)) \
+                and isinstance(n.comparators[0], (ast.Tuple, ast.List, ast.Set)) and all(isinstance(e, ast.Constant) for e in n.comparators[0].elts):
+            out.append(frozenset(e.value for e in n.comparators[0].elts))
+    if not out:
+        raise Unsupported("RecordAdapter: no `url in (<constants>)` test found")
+    return out
+
+
 def shared_codec_state(mod):
     """Module-level (de)compressor INSTANCES used anywhere in open_stream / open_path or the private helpers they call (one
     level): [(function, name)].  Not observable from one call, hence read from the source -- independent of its shape."""
@@ -1402,6 +1466,10 @@ def gen_detect():
     _cross_check("HAS_* import block", lambda: import_block_facts(base),
                  lambda r: None if all(set(r[f]) == set(deps[f]) for f in FLAGS) else "recognised %r, observed %r" % (r, deps), notes)
     pos_ok, pos_probes, pos_why = observe_position(base)
+    spellings, sp_table = observe_stdin_spellings(base)
+    _cross_check("RecordAdapter stdin spellings", lambda: stdin_spelling_tuples(base),
+                 lambda r: None if all(t == frozenset(spellings) for t in r) else "the source compares url with %s, observed no-url spellings %r" % (
+                     [sorted(map(repr, t)) for t in r], spellings), notes)
     del SHARED[:]
     SHARED.extend(shared_codec_state(base))      # not observable from single calls: read from the source, shape-independent
 
@@ -1436,6 +1504,10 @@ def gen_detect():
     out += "(* base.py import block: for each HAS_* flag the modules whose import (inside the try that sets it) decides it *)\n"
     out += "Definition flag_deps : list (flag * list bytes) :=\n  %s.\n\n" % clist(
         ["(%s, %s)" % (FLAGS[f], clist([cbytes(m.encode()) for m in deps[f]])) for f in FLAGS], sep=";\n   ")
+    out += "(* RecordReader(url, fileobj=...): the spellings of url observed to mean `no url: sniff the file object / standard input`\n"
+    out += "   (observed routes, without / with fileobj=: %s) *)\n" % "; ".join("%r -> %s/%s" % (k, v[0], v[1]) for k, v in sp_table.items())
+    out += "Definition no_url_spellings : list (option bytes) := %s.\n\n" % clist(
+        ["None" if sp is None else "(Some %s)" % (cbytes(sp.encode()) if sp else "[]") for sp in spellings])
     out += "Definition the_facts : facts :=\n  {| f_sniff_chain := sniff_chain; f_sniff_peek := %s; f_writer_passthrough := %s;\n" % (
         cnat(os_["peek"]), cbool(os_["passthrough"]))
     if SHARED:
@@ -1444,6 +1516,7 @@ def gen_detect():
     if not pos_ok:
         out += "     (* observed: %s *)\n" % pos_why.replace("*)", "* )")
     out += "     f_position_preserved := %s;   (* %d probes *)\n" % (cbool(pos_ok), pos_probes)
+    out += "     f_no_url_spellings := no_url_spellings;\n"
     out += "     f_header_read_len := header_read_len; f_header_test := header_test; f_flag_deps := flag_deps;\n"
     out += "     f_ext_chain := ext_chain; f_path_fallback_sniffs := %s; f_stdin_fallback_sniffs := %s;\n" % (
         cbool(op_["fallback"][0]), cbool(op_["fallback"][1]))
